@@ -77,6 +77,9 @@ try:
         out['demo_with'] = run_demo()
     seeds = [s for s in args.seeds.split(',') if s] or [None]
     for prop in props:
+        # the evidence file describes runs on the unchanged tree: keep it out of reach of runs on a changed one
+        evf = '/verif/evidence/%s.json' % prop
+        saved = open(evf).read() if os.path.exists(evf) else None
         for seed in seeds:
             env = dict(ENV)
             if seed:
@@ -91,6 +94,8 @@ try:
                 print('   ', '\n    '.join(lines[i + 1:i + 3])[:500])
             elif c.returncode != 0:
                 print(c.stdout[-1500:])
+        if saved is not None:
+            open(evf, 'w').write(saved)
 finally:
     sh(['git', '-C', '/repo', 'checkout', '--', '.'])
     left = status_clean()
